@@ -159,7 +159,7 @@ T tdigest<T, A>::get_quantile(double rank) const {
   // at least 2 centroids
   const double weight = rank * centroids_weight_;
   if (weight < 1) return min_;
-  if (weight > centroids_weight_ - 1.0) return max_;
+  if (weight >= centroids_weight_ - 1.0) return max_; // >=: at exactly W - 1 the tail interpolation below is 0/0 for a last centroid of weight 2
   const double first_weight = centroids_.front().get_weight();
   if (first_weight > 1 && weight < first_weight / 2.0) {
     return min_ + (weight - 1.0) / (first_weight / 2.0 - 1.0) * (centroids_.front().get_mean() - min_);
